@@ -53,7 +53,17 @@ def dec(req):
     return files, lib, w, log, delays, mode
 
 
-def enc(files, lib, w, log, delays, mode):
+def dec_fresh(req):
+    """(uptodate s…): objects whose .o is newer than the source (incremental build, force=False); absent = full build"""
+    d = {str(x[0]): x[1:] for x in req[1:]}
+    return None if 'uptodate' not in d else [int(str(x)) for x in d['uptodate']]
+
+
+def enc(files, lib, w, log, delays, mode, fresh=None):
+    return enc0(files, lib, w, log, delays, mode) + ([] if fresh is None else [[A('uptodate')] + list(fresh)])
+
+
+def enc0(files, lib, w, log, delays, mode):
     return [A('build'),
             [A('files')] + [[A('f'), s, m, list(us)] for s, m, us in files],
             [A('lib')] + list(lib),
@@ -173,7 +183,7 @@ def write_tree(tmp, files, delays, mode):
     return src, bld, log, w
 
 
-def _child_build(tmp, files, lib, w, delays, mode):
+def _child_build(tmp, files, lib, w, delays, mode, fresh=None):
     """runs in the forked child: the real Loki build; returns a picklable dict"""
     ll.logger.setLevel(logging.CRITICAL + 1)
     libmod.tqdm = lambda it, *a, **k: it
@@ -183,6 +193,22 @@ def _child_build(tmp, files, lib, w, delays, mode):
     quiet.setLevel(logging.CRITICAL + 1)
 
     src, bld, log, wrapper = write_tree(tmp, files, delays, mode)
+    pre = {}
+    if fresh is not None:
+        # incremental build: sources are 100 s old; up-to-date objects have a .o that is 50 s old, the others either no
+        # .o or one that is older than the source
+        now = time.time()
+        for s_, _, _ in files:
+            os.utime(src / fname(s_), (now - 100, now - 100))
+            o = bld / (Path(fname(s_)).stem.lower() + '.o')
+            if s_ in fresh:
+                o.write_text('')
+                os.utime(o, (now - 50, now - 50))
+            elif s_ % 2:
+                o.write_text('')
+                os.utime(o, (now - 200, now - 200))
+            if o.exists():
+                pre[o.name] = o.stat().st_mtime_ns
 
     class WrapCompiler(Compiler):
         def __init__(self):
@@ -219,10 +245,10 @@ def _child_build(tmp, files, lib, w, delays, mode):
             out['order'] = [o.name for o in reversed(list(nx.topological_sort(g)))]
         except nx.NetworkXException as e:
             out['order'] = None
-        thelib.build(builder=builder, force=True)
+        thelib.build(builder=builder, force=fresh is None)
     except BaseException as e:     # noqa
         out['error'] = type(e).__name__
-    out['objs'] = sorted(p.stem for p in bld.glob('*.o'))
+    out['objs'] = sorted(p.stem for p in bld.glob('*.o') if pre.get(p.name) != p.stat().st_mtime_ns)   # (re)written
     out['rawlog'] = log.read_text().splitlines()
     if mode == 'gfortran' and out['error'] is None:
         a = bld / 'libc44.a'
@@ -292,10 +318,10 @@ def parse_name(s):
     return int(s[1:]) if s.startswith('n') and s[1:].isdigit() else -1
 
 
-def real_build(files, lib, w, delays, mode='touch'):
+def real_build(files, lib, w, delays, mode='touch', fresh=None):
     tmp = Path(tempfile.mkdtemp(prefix='verif_c44_'))
     try:
-        tag, res = isolated(lambda: _child_build(tmp, files, lib, w, delays, mode), tmp / 'result.pkl')[:2]
+        tag, res = isolated(lambda: _child_build(tmp, files, lib, w, delays, mode, fresh), tmp / 'result.pkl')[:2]
     finally:
         shutil.rmtree(tmp, ignore_errors=True)
     if tag != 'ok':
@@ -326,11 +352,12 @@ def gen_dag(rng, n, mismatch_p, lib_subset):
     files = []
     for i in range(n):
         k = rng.choice([0, 1, 1, 2, 2, 3]) if i else 0
-        uses = sorted(rng.sample(range(i), min(k, i)))
+        uses = rng.sample(range(i), min(k, i))            # USE statements in any order
         if uses and rng.random() < 0.15:
             uses = uses + [uses[0]]                       # the same module used twice
-        if rng.random() < 0.12:
-            uses = uses + [50 + i]                        # an external module (no file defines it)
+        if rng.random() < 0.25:
+            uses.insert(rng.choice([0, 0, len(uses), rng.randrange(len(uses) + 1)]), 50 + i)   # an external module (no file
+            #                                               defines it): first, last or in between
         stem = 100 + i if rng.random() < mismatch_p else i
         files.append((stem, i, uses))
     order = list(range(n))
@@ -343,6 +370,45 @@ def gen_dag(rng, n, mismatch_p, lib_subset):
     else:
         lib = sorted(stems)
     return files, lib
+
+
+def gen_taskless_first(rng, incremental):
+    """family: an object lists a dependency WITHOUT a build task (external module, or - incremental - an up-to-date
+    object) before in-tree dependencies that are slow to compile; w >= 2"""
+    n = rng.randint(3, 6)
+    files, fresh = [], []
+    for i in range(n):
+        k = min(i, rng.choice([1, 2, 2, 3])) if i else 0
+        uses = rng.sample(range(i), k)
+        files.append([i, i, uses])
+    if incremental:
+        # some objects that are used by others are up to date; users list them first
+        used = sorted({u for _, _, us in files for u in us})
+        fresh = sorted(rng.sample(used, rng.randint(1, max(1, len(used) // 2))))
+        for f in files:
+            f[2] = [u for u in f[2] if u in fresh] + [u for u in f[2] if u not in fresh]
+        stale = [f[0] for f in files if f[0] not in fresh]
+        if not any(set(f[2]) & set(fresh) and set(f[2]) & set(stale) for f in files if f[0] in stale):
+            tgt = files[-1]
+            if tgt[0] in fresh:
+                fresh.remove(tgt[0])
+            st = [x for x in range(n - 1) if x not in fresh] or [0]
+            if st == [0] and 0 in fresh:
+                fresh.remove(0)
+            tgt[2] = [fresh[0] if fresh and fresh[0] != tgt[0] else 50] + [rng.choice(st)]
+    else:
+        for f in files:
+            if f[2] and rng.random() < 0.7:
+                f[2] = [50 + f[0]] + f[2]
+        if not any(f[2] and f[2][0] >= 50 for f in files):
+            files[-1][2] = [50 + n] + (files[-1][2] or [0])
+    used = {u for _, _, us in files for u in us}
+    delays = [rng.choice([30, 40, 50]) if i in used and i not in fresh else 0 for i, _, _ in files]
+    files = [(a, b, list(c)) for a, b, c in files]
+    order = list(range(n))
+    rng.shuffle(order)
+    return [files[i] for i in order], sorted(f[0] for f in files), rng.choice([2, 3, 4]), [delays[i] for i in order], \
+        (sorted(fresh) if incremental else None)
 
 
 def gen_delays(rng, files):
@@ -366,7 +432,7 @@ class C44(Prop):
     props_module = 'LokiModel.Props.C44'
     driver = 'Drivers/C44.lean'
     theorems = ['C44_order', 'C44_order_step', 'C44_once', 'C44_final', 'C44_serial_eq_parallel', 'C44_progress',
-                'C44_serial_run', 'C44_accept_sound', 'C44_full_false', 'C44_partial']
+                'C44_serial_run', 'C44_accept_sound', 'C44_full_false', 'C44_partial', 'C44_partial_incremental']
     design_ref = 'DESIGN.md 4.G C44'
     level = 'proof'
     level_text = (
@@ -381,7 +447,9 @@ class C44(Prop):
         'run) - all at full strength, proved by an inductive invariant (inv_init, inv_step, inv_reach). The property w.r.t. '
         'the files that DEFINE the used modules (C44_full) is FALSE for the unchanged code (C44_full_false: module name != '
         'file stem, dependency node Obj(name=<module>) has no source and is not waited for) and is proved outside that '
-        'family (C44_partial, hypothesis KnownStemMismatch fs = false). Tied to the code by trace validation: real '
+        'family (C44_partial, hypothesis KnownStemMismatch fs = false; C44_partial_incremental: the same for incremental builds '
+        'with force=False, where up-to-date objects - like external modules - get no task and are not waited for, wherever '
+        'they stand in the dependency list). Tied to the code by trace validation: real '
         'Lib.build runs with 1, 2, 3, 4 or 6 workers on generated module DAGs with a logging compiler wrapper; the Lean driver replays '
         'each observed log (acceptance), checks the order contract on the observed submit order, derives the dependency '
         'edges and compares them with Builder.get_dependency_graph; a Python oracle checks the ordering invariant on every '
@@ -397,7 +465,9 @@ class C44(Prop):
         'a model of networkx.')
     technique = 'Lean 4 invariant proof over all interleavings of a transition system + trace validation of real builds'
     rule = ('random module DAGs (2..8 files, 0..3 uses each, duplicate and external uses, 4 USE spellings, upper-case names, '
-            'optional stem != module name, library = all files or a random subset) built by the real code with w in 1..6 '
+            'optional stem != module name, library = all files or a random subset; USE statements in any order with external '
+            'modules first/last/in between; a family with a task-less dependency - external module, or up-to-date object in an '
+            'incremental force=False build - listed before slow in-tree dependencies) built by the real code with w in 1..6 '
             'under seed-derived per-file compiler delays (random / slow dependencies / zero); non-trivial = at least one '
             'dependency edge with a source and w >= 2; distinct by (files, lib, w, delays)')
     trusted_base = ['harness/props/c44.py (compiler wrapper, O_APPEND log order as the monotonic counter, Python statement of '
@@ -415,13 +485,13 @@ class C44(Prop):
         self._runs = {}      # (files, lib, w, delays, mode) -> result of a real build in this process (the log is not part of the key)
 
     @staticmethod
-    def key(files, lib, w, delays, mode):
-        return repr((files, lib, w, delays, mode))
+    def key(files, lib, w, delays, mode, fresh=None):
+        return repr((files, lib, w, delays, mode, fresh))
 
-    def build(self, files, lib, w, delays, mode):
-        k = self.key(files, lib, w, delays, mode)
+    def build(self, files, lib, w, delays, mode, fresh=None):
+        k = self.key(files, lib, w, delays, mode, fresh)
         if k not in self._runs:
-            self._runs[k] = real_build(files, lib, w, delays, mode)
+            self._runs[k] = real_build(files, lib, w, delays, mode, fresh)
         return self._runs[k]
 
     # ---- generation (runs the real code: the log is part of the request)
@@ -444,14 +514,25 @@ class C44(Prop):
             key = repr((files, lib, w, delays))
             self._runs[self.key(files, lib, w, delays, 'touch')] = run   # impl/oracle of this process reuse the run; a replay makes a fresh one
             yield Case(req, stream=mode + ('-mismatch' if known_stem_mismatch(files) else ''), nontrivial=nontriv, key=key)
+        # family: a dependency without a build task (external module / up-to-date object with force=False) listed BEFORE
+        # slow in-tree dependencies
+        n_tl = {'quick': 4, 'thorough': 16, 'search': 10}.get(tier, 4)
+        for k in range(n_tl):
+            files, lib, w, delays, fresh = gen_taskless_first(rng, incremental=bool(k % 2))
+            run = real_build(files, lib, w, delays, 'touch', fresh)
+            self._runs[self.key(files, lib, w, delays, 'touch', fresh)] = run
+            req = enc(files, lib, w, run['log'], delays, 'touch', fresh)
+            yield Case(req, stream='taskless-first' + ('-incremental' if fresh is not None else ''), nontrivial=True,
+                       key=repr((files, lib, w, delays, fresh)))
 
     # ---- real code
     def fresh(self, req):
         files, lib, w, _, delays, _ = dec(req)
-        return self.build(files, lib, w, delays, 'touch')
+        return self.build(files, lib, w, delays, 'touch', dec_fresh(req))
 
     def impl(self, req):
         files, lib, w, log, delays, mode = dec(req)
+        fresh = dec_fresh(req) or []
         run = self.fresh(req)
         if run['error']:
             return [A('error'), A('build-failed'), run['error']]
@@ -465,7 +546,7 @@ class C44(Prop):
                 [A('topo'), True],
                 [A('accepted'), A('true')],
                 [A('inv-code'), True],
-                [A('inv-true'), not prec_violations(lambda o: true_deps(files, o), log)],
+                [A('inv-true'), not prec_violations(lambda o: [d for d in true_deps(files, o) if d not in fresh], log)],
                 [A('once'), True],
                 [A('walk-complete'), True],
                 [A('built')] + run['objs'],
@@ -480,21 +561,27 @@ class C44(Prop):
                 and len({f[1] for f in files}) == len(files) and set(lib) <= set(stems) and len(set(lib)) == len(lib)
                 and all(u != f[1] for f in files for u in f[2]) and mode in ('touch', 'gfortran')):
             raise ValueError('ill-formed request (not a generated input)')
+        fresh = dec_fresh(req)
+        if fresh is not None and not (set(fresh) <= set(stems) and mode == 'touch' and set(stems) - set(fresh)):
+            raise ValueError('ill-formed request (not a generated input)')
+        rebuilt = set(stems) - set(fresh or [])
         cls = 'stem-mismatch' if known_stem_mismatch(files) else None
         fails = []
         run = self.fresh(req)
         if run['error']:
             return [Failure(f'real build with {w} workers raised {run["error"]}', None)]
-        serial = self.build(files, lib, 1, delays, 'touch') if w != 1 else run
+        serial = self.build(files, lib, 1, delays, 'touch', fresh) if w != 1 else run
         if serial['error']:
             return [Failure(f'real serial build raised {serial["error"]}', None)]
-        tdeps = lambda o: true_deps(files, o)    # noqa
+        tdeps = lambda o: [d for d in true_deps(files, o) if d in rebuilt]    # noqa  (up-to-date objects are not rebuilt)
         for what, lg, ww in (('log of the parallel run', run['log'], w), ('log of the serial run', serial['log'], 1)):
             bad = prec_violations(tdeps, lg)
             if bad:
                 o, d = bad[0]
                 fails.append(Failure(f'{what} (workers={ww}): object {nm(o)} started before {nm(d)}, which defines a module '
                                      f'it uses, had finished', cls))
+            if {i[0] for k, i in lg if k == 's'} - rebuilt:
+                fails.append(Failure(f'{what}: an up-to-date object was rebuilt: {lg}', None))
             if not once_ok(lg):
                 fails.append(Failure(f'{what}: some object was not submitted/started/finished exactly once: {lg}', None))
             if max_running(lg) > max(ww, 1):
